@@ -387,6 +387,10 @@ func (p *printer) annotation(n *ref.SNode, level int) {
 		}
 		if note != "" {
 			p.w(" - ")
+			if p.st.BlockBeforeRules > 0 && !multi && (p.bb/p.st.BlockBeforeRules)%2 == 1 {
+				// ... and one behind the dash, in front of the note text
+				p.w([]string{"### c ### ", "######"}[(p.bb/p.st.BlockBeforeRules/2)%2])
+			}
 			p.w(note)
 		}
 	} else {
